@@ -57,6 +57,10 @@ type Result struct {
 	Values []ValuePos
 	// Fields: response path of every field executed (resolver or not; __typename excluded), sorted
 	Fields []string
+	// NestedRootKeys: response keys of the fields of a root object that is reached again below the
+	// root (a field of type Query): gqlgen runs them as root fields once more (root-field
+	// interceptors); the field that leads there runs no field interceptor and is not in Fields
+	NestedRootKeys []string
 	// NullingKeys: object response path -> response keys of its non-null fields that completed to
 	// null (each of them nulls the object)
 	NullingKeys map[string][]string
@@ -103,6 +107,17 @@ type Config struct {
 type executor struct {
 	Config
 	res *Result
+	// rootValued: value keys of non-resolver fields whose type is a root operation type
+	rootValued map[string]bool
+}
+
+func (x *executor) isRootType(name string) bool {
+	for _, d := range []*ast.Definition{x.Schema.Query, x.Schema.Mutation, x.Schema.Subscription} {
+		if d != nil && d.Name == name {
+			return true
+		}
+	}
+	return false
 }
 
 func null() *strictjson.Value { return &strictjson.Value{Kind: strictjson.Null} }
@@ -317,7 +332,14 @@ func (x *executor) selectionSet(obj *ast.Definition, objKey string, sets []ast.S
 		if fd == nil {
 			panic(fmt.Sprintf("refexec: no field %s on %s", f.Name, obj.Name))
 		}
-		x.res.Fields = append(x.res.Fields, fpath)
+		if !x.IsResolver(obj.Name, fd.Name) && fd.Type.Elem == nil && x.isRootType(fd.Type.Name()) {
+			// generated code continues with the root object at once: no field interceptor runs
+		} else {
+			x.res.Fields = append(x.res.Fields, fpath)
+		}
+		if !isRoot && x.isRootType(obj.Name) {
+			x.res.NestedRootKeys = append(x.res.NestedRootKeys, rk)
+		}
 		v, isNull := x.field(obj, objKey, fd, fields, fpath)
 		if isNull && fd.Type.NonNull {
 			objNull = true
@@ -485,7 +507,15 @@ func (x *executor) field(obj *ast.Definition, objKey string, fd *ast.FieldDefini
 	for _, f := range fields {
 		sels = append(sels, f.SelectionSet)
 	}
-	if valueKey != fpath && fd.Type.Elem == nil {
+	if valueKey != fpath && fd.Type.Elem == nil && x.isRootType(fd.Type.Name()) {
+		// a field of a root operation type that is read from its parent (the Relay-style
+		// 'query: Query'): gqlgen does not look at the parent's Go field at all, the generated code
+		// continues with the root object (codegen/field.gotpl, TypeReference.IsRoot)
+		if x.rootValued == nil {
+			x.rootValued = map[string]bool{}
+		}
+		x.rootValued[valueKey] = true
+	} else if valueKey != fpath && fd.Type.Elem == nil {
 		if td := x.Schema.Types[fd.Type.Name()]; td != nil {
 			x.res.Values = append(x.res.Values, ValuePos{Key: valueKey, NonNull: fd.Type.NonNull, Leaf: td.IsLeafType()})
 		}
@@ -539,6 +569,9 @@ func goDirName(name string) string {
 
 func (x *executor) complete(t *ast.Type, key, path string, sels []ast.SelectionSet) (*strictjson.Value, bool) {
 	o := x.Plan.Get(key, !t.NonNull)
+	if x.rootValued[key] {
+		o = plan.Outcome{Kind: plan.Value}
+	}
 	if t.Elem == nil {
 		if def := x.Schema.Types[t.NamedType]; def != nil && def.IsAbstractType() && len(univ.PossibleObjects(x.Schema, def)) == 0 {
 			// an interface nothing implements: the only Go value there is, is nil
